@@ -219,7 +219,53 @@ def obj_id(cfg, k):
     """benign object ids suitable for the layout of the configuration"""
     if cfg["layout"] in ("0006", "0007"):
         return "urn:obj:%03d" % k
+    if cfg["layout"] == "0002" and k > 0:
+        return "coll/2024/obj-%d" % k       # flat-direct: ids with '/' nest object roots below plain directories
     return "obj-%d" % k
+
+
+def purge_scenario(cfg):
+    """scripted history: three committed objects (one with staged changes), then purge and reset-all of every
+    never-existing id related to them - each must change nothing (checked by the C08 hook)"""
+    ids = [obj_id(cfg, k) for k in range(3)]
+    ops = []
+    for k, o in enumerate(ids):
+        ops += [{"op": "new", "id": o},
+                {"op": "cp_ext", "id": o, "files": [["a.txt", k + 1]], "dst": "a.txt", "recursive": False},
+                {"op": "commit", "id": o}]
+    ops.append({"op": "cp_ext", "id": ids[2], "files": [["b.txt", 2]], "dst": "dir/b.txt", "recursive": False})
+    lay = cfg["layout"]
+    if lay == "0002":
+        rels = ids
+    elif lay in ("0006", "0007"):
+        rels = [o.split(":")[-1] for o in ids]
+    else:
+        rels = []
+    for x in stranger_ids(cfg, rels):
+        if x not in ids:
+            ops.append({"op": "purge", "id": x})
+            ops.append({"op": "reset_all", "id": x})
+    ops.append({"op": "purge", "id": ids[1]})
+    return ops
+
+
+def stranger_ids(cfg, main_rel_roots):
+    """ids of objects that NEVER exist in the history but whose layout path is related to an existing object's
+    root (a prefix directory, a path inside it, another id mapped to the same root) plus degenerate ids:
+    purge / reset-all of such an id must change nothing"""
+    out = [".", "extensions", "no-such-object"]
+    lay = cfg["layout"]
+    for rel in main_rel_roots:
+        parts = rel.split("/")
+        if lay == "0002":
+            out += ["/".join(parts[:k]) for k in range(1, len(parts))]
+            out += [rel + "/v1", rel + "/v1/content", rel + "/extensions"]
+        elif lay == "0006":
+            out += ["other:" + parts[-1], "x:y:" + parts[-1]]
+        elif lay == "0007":
+            # (an id ending with the delimiter cannot be mapped: rocfl refuses it by panicking, C11's business)
+            out += ["other:" + (parts[-1].lstrip("0") or "0"), "zz:" + parts[-1]]
+    return sorted(set(out))
 
 
 def gen_history(rng, cfg, length, n_objects=2):
